@@ -315,4 +315,5 @@ def run(prog: Program, col: Collector, tier: str, refs: Optional[Refs] = None, c
     kernels.r_aligned_or_same_layout(prog, col, refs, cat, "R03.17")
     kernels.r_unit_axis_padding(prog, col, refs, cat, "R03.18")
     kernels.r_index_padding_count(prog, col, refs, cat, "R03.19")
+    algebra.r_receiver_narrowed_reduce(prog, col, refs, cat, "R03.20")
     return col
